@@ -37,6 +37,7 @@ class Tier:
         self.n_fresh = 6 if q else 40
         self.max_minimise = int(os.environ.get("VERIF_C10_MAXMIN", 10 if q else 40))
         self.corpus_fraction = float(os.environ.get("VERIF_C10_CORPUS", 1.0))
+        self.stack_faults = os.environ.get("VERIF_C10_STACK", "1") != "0"
         self.wall_budget = float(os.environ.get("VERIF_C10_WALL", 170 if q else 3000))
 
 
@@ -228,8 +229,14 @@ class Runner:
         if r.chance(0.15):
             ops.append({"op": "gc", "mode": "disable"})
         done = []
+        # fault: some predecessors are checked with only a few frames of stack left (RecursionError
+        # at an arbitrary point of the checker); they and their re-checks are never compared
+        p_stack = r.choice([0.0, 0.0, 0.03, 0.1, 0.25]) if self.tier.stack_faults else 0.0
         for p in picked:
-            ops.append({"op": "check", "pid": p})
+            if r.chance(p_stack):
+                ops.append({"op": "check", "pid": p, "stack": r.choice([r.randint(20, 90), r.randint(20, 260)])})
+            else:
+                ops.append({"op": "check", "pid": p})
             done.append(p)
             if r.chance(p_re):
                 q = p if r.chance(0.7) else r.choice(done)
@@ -389,6 +396,7 @@ class Runner:
             if job.kind == "hist":
                 base = iso[job.meta["pass"]]
                 seen_before = []
+                tainted = set()
                 prefix = hashlib.sha256()
                 for e in events:
                     op = e.get("op")
@@ -411,8 +419,13 @@ class Runner:
                     if inv.get("assumed") or inv.get("exclude_any") or inv.get("any_match"):
                         self.stats["invariant_leads"] += 1
                     state_keys.add((pid, job.hash, job.layout, prefix.hexdigest()[:16]))
+                    if e.get("stack"):
+                        tainted.add(pid)
+                        self.fault_counts["stack_exhaustion_armed"] += 1
+                        if "ecursion" in json.dumps(e.get("obs")):
+                            self.fault_counts["stack_exhaustion_fired"] += 1
                     expect = base.get(pid)
-                    if pid in usable and expect is not None and "diags" in expect:
+                    if pid in usable and pid not in tainted and expect is not None and "diags" in expect:
                         d = oracle.compare(expect, e["obs"])
                         if d:
                             leads.append({"pid": pid, "mechanism": "history", "hash": job.hash, "layout": job.layout, "diff": d,
